@@ -572,9 +572,10 @@ impl GlyphClosure for ContextFormat1<'_> {
                     } else if sequence_idx == 0 {
                         Some(IntSet::from([coverage.iter().nth(i).unwrap()]))
                     } else {
-                        Some(IntSet::from([rule.input_sequence()
-                            [sequence_idx as usize - 1]
-                            .get()]))
+                        match rule.input_sequence().get(sequence_idx as usize - 1) {
+                            Some(g) => Some(IntSet::from([g.get()])),
+                            None => continue,
+                        }
                     };
                     ctx.add_todo(lookup_id, active_glyphs);
                 }
@@ -731,11 +732,10 @@ impl GlyphClosure for ContextFormat2<'_> {
                     } else if seq_idx == 0 {
                         Some(intersect_class(&classdef, &cur_glyphs, class_i))
                     } else {
-                        Some(intersect_class(
-                            &classdef,
-                            ctx.glyphs(),
-                            rule.input_sequence()[seq_idx as usize - 1].get(),
-                        ))
+                        match rule.input_sequence().get(seq_idx as usize - 1) {
+                            Some(c) => Some(intersect_class(&classdef, ctx.glyphs(), c.get())),
+                            None => continue,
+                        }
                     };
 
                     ctx.add_todo(lookup_id, active_glyphs);
@@ -1086,5 +1086,29 @@ mod tests {
             .collect_features(&script_tags, &IntSet::all(), &IntSet::all())
             .unwrap();
         assert!(ret.is_empty());
+    }
+
+    /// A sequence lookup record whose sequence index is beyond the rule's
+    /// input sequence used to index out of bounds (context formats 1 and 2).
+    #[test]
+    fn context_lookup_record_beyond_input_sequence() {
+        let format1: &[u8] = &[
+            0x00, 0x01, 0x00, 0x00, 0x00, 0x0a, 0x00, 0x0c, 0x00, 0x1a, 0x00, 0x00, 0x00, 0x01, 0x63, 0x61,
+            0x6c, 0x74, 0x00, 0x08, 0x00, 0x00, 0x00, 0x01, 0x00, 0x00, 0x00, 0x01, 0x00, 0x04, 0x00, 0x05,
+            0x00, 0x00, 0x00, 0x01, 0x00, 0x08, 0x00, 0x01, 0x00, 0x08, 0x00, 0x01, 0x00, 0x0e, 0x00, 0x01,
+            0x00, 0x01, 0x00, 0x00, 0x00, 0x01, 0x00, 0x04, 0x00, 0x01, 0x00, 0x01, 0x00, 0x01, 0x00, 0x00,
+        ];
+        let format2: &[u8] = &[
+            0x00, 0x01, 0x00, 0x00, 0x00, 0x0a, 0x00, 0x0c, 0x00, 0x1a, 0x00, 0x00, 0x00, 0x01, 0x63, 0x61,
+            0x6c, 0x74, 0x00, 0x08, 0x00, 0x00, 0x00, 0x01, 0x00, 0x00, 0x00, 0x01, 0x00, 0x04, 0x00, 0x05,
+            0x00, 0x00, 0x00, 0x01, 0x00, 0x08, 0x00, 0x02, 0x00, 0x0a, 0x00, 0x10, 0x00, 0x01, 0x00, 0x18,
+            0x00, 0x01, 0x00, 0x01, 0x00, 0x00, 0x00, 0x01, 0x00, 0x00, 0x00, 0x01, 0x00, 0x00, 0x00, 0x01,
+            0x00, 0x04, 0x00, 0x01, 0x00, 0x01, 0x00, 0x01, 0x00, 0x00,
+        ];
+        for data in [format1, format2] {
+            let gsub = <Gsub as crate::FontRead>::read(crate::FontData::new(data)).unwrap();
+            let glyphs = IntSet::from([GlyphId16::new(0)]);
+            assert!(gsub.closure_glyphs(glyphs).is_ok());
+        }
     }
 }
